@@ -199,7 +199,18 @@ pub(crate) fn get_worksheet_xml(
         row_style_dict.insert(row.r, row.clone());
     }
 
-    for (row_index, row_data) in worksheet.sheet_data.iter().sorted_by_key(|x| x.0) {
+    // rows that hold cells, and rows that only have a height, a style or the hidden flag
+    let no_cells = HashMap::new();
+    let row_indices: Vec<i32> = worksheet
+        .sheet_data
+        .keys()
+        .copied()
+        .chain(worksheet.rows.iter().map(|row| row.r))
+        .sorted()
+        .dedup()
+        .collect();
+    for row_index in &row_indices {
+        let row_data = worksheet.sheet_data.get(row_index).unwrap_or(&no_cells);
         let mut row_data_str: Vec<String> = vec![];
         for (column_index, cell) in row_data.iter().sorted_by_key(|x| x.0) {
             let column_name = number_to_column(*column_index).unwrap();
@@ -655,9 +666,18 @@ pub(crate) fn get_worksheet_xml(
 
     let hyperlinks_section = get_hyperlinks_section(worksheet);
 
+    // <sheetPr><tabColor rgb="FFFF0000"/></sheetPr>
+    let tab_color = super::styles_util::get_color_xml(&worksheet.color, "tabColor");
+    let sheet_pr = if tab_color.is_empty() {
+        "".to_string()
+    } else {
+        format!("<sheetPr>{tab_color}</sheetPr>")
+    };
+
     format!(
         "{XML_DECLARATION}\
 <worksheet xmlns=\"http://schemas.openxmlformats.org/spreadsheetml/2006/main\" xmlns:r=\"http://schemas.openxmlformats.org/officeDocument/2006/relationships\">\
+  {sheet_pr}\
   <dimension ref=\"{dimension}\"/>\
   <sheetViews>\
     <sheetView workbookViewId=\"0\"{show_grid_lines}{tab_selected}>\
